@@ -305,9 +305,14 @@ impl Buffer {
 
         let layer = &mut self.layers[layer];
         for i in start_line..=end_line {
-            let line = &mut layer.lines[i as usize];
+            // rows are allocated lazily and may be shorter than the right margin
+            let Some(line) = layer.lines.get_mut(i as usize) else {
+                continue;
+            };
             if line.chars.len() > start_column {
-                line.chars.insert(end_column as usize, AttributedChar::default());
+                if end_column as usize <= line.chars.len() {
+                    line.chars.insert(end_column as usize, AttributedChar::default());
+                }
                 line.chars.remove(start_column);
             }
         }
@@ -322,10 +327,15 @@ impl Buffer {
 
         let layer = &mut self.layers[layer];
         for i in start_line..=end_line {
-            let line = &mut layer.lines[i as usize];
+            // rows are allocated lazily and may be shorter than the right margin
+            let Some(line) = layer.lines.get_mut(i as usize) else {
+                continue;
+            };
             if line.chars.len() > start_column {
                 line.chars.insert(start_column, AttributedChar::default());
-                line.chars.remove(end_column + 1);
+                if end_column + 1 < line.chars.len() {
+                    line.chars.remove(end_column + 1);
+                }
             }
         }
     }
